@@ -35,7 +35,6 @@ type SessScript struct {
 
 // Sess is the interpreter state for a SessScript.
 type Sess struct {
-	nShort int
 	Faults int // randomness faults armed so far
 	Cfg    SessCfg
 	W      *sim.World
@@ -98,7 +97,7 @@ func newSess(sc *SessScript, o *sim.Outcome) *Sess {
 	pa, pb := sc.Cfg.pol()|sc.PolA, sc.Cfg.pol()|sc.PolB
 	w := sim.NewWorld(
 		sim.PartyOpts{Seed: sc.Cfg.SeedA, Pol: pa, KeyI: sc.Cfg.KeyA, Frag: sc.Cfg.FragA, NoErrH: sc.Cfg.NoErrH, ShortKeys: sc.Cfg.SkA},
-		sim.PartyOpts{Seed: sc.Cfg.SeedB, Pol: pb, KeyI: sc.Cfg.KeyB, Frag: sc.Cfg.FragB, NoErrH: sc.Cfg.NoErrH, ShortKeys: sc.Cfg.SkB, ShortFrom: 3})
+		sim.PartyOpts{Seed: sc.Cfg.SeedB, Pol: pb, KeyI: sc.Cfg.KeyB, Frag: sc.Cfg.FragB, NoErrH: sc.Cfg.NoErrH, ShortKeys: sc.Cfg.SkB, ShortFrom: 1})
 	s := &Sess{Cfg: sc.Cfg, W: w, Obs: ref.NewObserver(3), o: o}
 	s.Obs.Versions = []int{versionsOf(pa), versionsOf(pb), 3}
 	s.Obs.SendsWS = []bool{pa&sim.PolSendWS != 0, pb&sim.PolSendWS != 0, false}
@@ -266,8 +265,7 @@ func (s *Sess) Exec(op SOp) *sim.Call {
 		return w.Receive(who, ref.Armor(append(append([]byte{}, hdr...), body...)))
 	case "shortkey":
 		// the next D-H key this party generates has a public value with a zero top byte (a byte shorter on the wire)
-		w.P[who].R.Force40 = append(w.P[who].R.Force40, sim.ShortExps[(op.X+s.nShort)%len(sim.ShortExps)])
-		s.nShort++
+		w.P[who].R.ArmShort(who)
 	case "faultsess":
 		// one read of this party's source fails somewhere inside the key exchange that follows
 		p := w.P[who]
